@@ -1,7 +1,8 @@
 ------------------------------ MODULE RuntimeCycle ------------------------------
 (* One resource of the trust-platform runtime, at the grain of Runtime::execute_cycle     *)
-(* (crates/trust-runtime/src/runtime/cycle.rs): driver reads -> latch -> ready tasks ->    *)
-(* background programs -> publish -> driver writes, with a fault possible in every phase,  *)
+(* (crates/trust-runtime/src/runtime/cycle.rs): driver reads -> latch -> ready tasks (the   *)
+(* programs of each, then the FB instances associated with it) -> background programs ->   *)
+(* publish -> driver writes, with a fault possible in every phase,                         *)
 (* the fault latch, fault policy / watchdog action and the safe-state map.                 *)
 (*                                                                                         *)
 (* Written from properties C06 (task model), C07 (process image) and C08 (fault halts the  *)
@@ -34,16 +35,22 @@ Span(a) == IF a.size = "X" THEN {<<a.byte, a.bit>>}
            ELSE {<<b, k>> : b \in a.byte..(a.byte + SizeBytes(a.size) - 1), k \in 0..7}
 
 \* ----------------------------------- state -----------------------------------
-\* cfg: [tasks, programs, bindings, drivers, policy, wd, safe, singles, imgLen]
+\* cfg: [tasks, programs, fbs, bindings, drivers, policy, wd, safe, singles, imgLen]
 \*   tasks[i]    = [name, interval, single ("" = none), prio]                  declaration order
 \*   programs[j] = [name, task ("" = background), copies = << [from, to] >>]   declaration order
+\*   fbs[f]      = [name, prog, task, copies]   FUNCTION_BLOCK instance `name` declared in program
+\*                 instance `prog` and associated with `task` by the program configuration
+\*                 (PROGRAM prog [WITH t] : Type (inst WITH task, ...)); per program in the order
+\*                 of its list; `inst` may be a path (member of another FB instance: g1.f)
 \*   bindings[k] = [var, area, size, byte, bit]
 \*   drivers[d]  = [off, len]        (the slice of the input image the driver owns)
 \*   policy      \in {"halt", "safe_halt", "restart"}      fault policy
 \*   wd          \in {"halt", "safe_halt", "restart"}      watchdog action
 \*   safe[m]     = [addr |-> [area, size, byte, bit], val]
-\*   counters[c] = [name, owner (index of the program that bumps it), scope ("global"|"program"),
-\*                  qual ("none"|"retain"|"nonretain"|"persistent"), shape]        (C09)
+\*   counters[c] = [name, owner (index of the program that bumps it, 0 = none), fb (index of the
+\*                  task-associated FB instance whose member it is, 0 = none),
+\*                  scope ("global"|"program"|"fb"), qual ("none"|"retain"|"nonretain"|"persistent"),
+\*                  shape]                                                          (C09)
 \*   sinit       = [single variable |-> its declared initial value]
 \*   vars0       = initial bytes of every bound variable
 \* s:   [now, g, lastAct, lastSingle, overruns, img, vars, cnt, src, drvLog, exec, faulted,
@@ -56,6 +63,7 @@ VARIABLES cfg, s
 rvars == <<cfg, s>>
 TIdx == 1..Len(cfg.tasks)
 PIdx == 1..Len(cfg.programs)
+FIdx == 1..Len(cfg.fbs)
 DIdx == 1..Len(cfg.drivers)
 
 CtrNames(c) == {c.counters[k].name : k \in DOMAIN c.counters}
@@ -150,9 +158,10 @@ RunCopies(x, p, i) ==
   ELSE RunCopies([x EXCEPT !.vars[p.copies[i].to] = x.vars[p.copies[i].from]], p, i + 1)
 \* a program first bumps every counter it owns (C09: variables of every qualifier / scope /
 \* type shape), then performs its copies
-Bump(x, j) == [x EXCEPT !.ctr = [n \in DOMAIN x.ctr |->
-                 IF \E k \in DOMAIN cfg.counters : cfg.counters[k].name = n /\ cfg.counters[k].owner = j
+BumpSel(x, Mine(_)) == [x EXCEPT !.ctr = [n \in DOMAIN x.ctr |->
+                 IF \E k \in DOMAIN cfg.counters : cfg.counters[k].name = n /\ Mine(cfg.counters[k])
                  THEN x.ctr[n] + 1 ELSE x.ctr[n]]]
+Bump(x, j) == BumpSel(x, LAMBDA c : c.owner = j)
 RunProgram(x, j) ==
   RunCopies(Bump([x EXCEPT !.exec = Append(x.exec, cfg.programs[j].name)], j), cfg.programs[j], 1)
 Pending(x) == x.fault # "none" /\ ~x.faulted
@@ -163,10 +172,32 @@ RunProgs(x, j, sel) ==
   ELSE IF sel[j] THEN RunProgs(RunProgram(x, j), j + 1, sel) ELSE RunProgs(x, j + 1, sel)
 TaskSel(t) == [j \in PIdx |-> cfg.programs[j].task = cfg.tasks[t].name]
 BgSel      == [j \in PIdx |-> cfg.programs[j].task = ""]
+
+\* ---------------------- FUNCTION_BLOCK instances associated with a task ----------------------
+\* IEC 61131-3 6.8.2 e / docs/specs/10-runtime.md 6.2: an FB instance associated with a task
+\* executes under that task - once per activation of the task, never when the task is not due,
+\* whatever the task (if any) of the program that declares it.  Where the documents are silent
+\* the model follows Runtime::execute_task: an activation runs the task's programs first, then
+\* its FB instances in declaration order (declaring program, then position in its list).
+\* An instance keeps its state between activations (its member counter is bumped by every
+\* execution); its body is an item like a program body: executed-log entry, counter, copies,
+\* and a fault inside it is a fault of the cycle (C08).
+ProgPos(n)     == CHOOSE j \in PIdx : cfg.programs[j].name = n
+FbBefore(a, b) == LET pa == ProgPos(cfg.fbs[a].prog) pb == ProgPos(cfg.fbs[b].prog) IN
+                    pa < pb \/ (pa = pb /\ a < b)
+TaskFbs(t)     == SortSeq(SetToSeq({f \in FIdx : cfg.fbs[f].task = cfg.tasks[t].name}), FbBefore)
+RunFb(x, f) ==
+  RunCopies(BumpSel([x EXCEPT !.exec = Append(x.exec, cfg.fbs[f].name)], LAMBDA c : c.fb = f), cfg.fbs[f], 1)
+RECURSIVE RunFbs(_, _, _)
+RunFbs(x, q, i) == IF i > Len(q) \/ Pending(x) THEN x ELSE RunFbs(RunFb(x, q[i]), q, i + 1)
+\* one activation of task t: its programs, then its FB instances; a fault ends it
+RunTask(x, t) ==
+  LET a == RunProgs([x EXCEPT !.trun = Append(x.trun, cfg.tasks[t].name)], 1, TaskSel(t)) IN
+  IF Len(cfg.fbs) = 0 THEN a ELSE RunFbs(a, TaskFbs(t), 1)
 RECURSIVE RunTasks(_, _, _)
 RunTasks(x, ord, i) ==
   IF i > Len(ord) \/ Pending(x) THEN x
-  ELSE RunTasks(RunProgs([x EXCEPT !.trun = Append(x.trun, cfg.tasks[ord[i]].name)], 1, TaskSel(ord[i])), ord, i + 1)
+  ELSE RunTasks(RunTask(x, ord[i]), ord, i + 1)
 
 \* ------------------------- debugger writes (cycle boundaries only) -------------------------
 \* a debugger write never takes effect in the middle of a cycle: variable writes are applied at the
